@@ -437,7 +437,7 @@ pub fn check_enum(c: &EnumCase) -> CaseResult {
     Ok(Info::new(true).class(["COption", "CResult", "CTup"][(c.which % 3) as usize]))
 }
 
-fn slice_strategy() -> impl Strategy<Value = SliceCase> {
+pub fn slice_strategy() -> impl Strategy<Value = SliceCase> {
     (
         0u8..4,
         prop_oneof![3 => 0u16..=64, 1 => 65u16..3000],
@@ -448,7 +448,7 @@ fn slice_strategy() -> impl Strategy<Value = SliceCase> {
         .prop_map(|(elem, len, offset, seed, writes)| SliceCase { elem, len, offset, seed, writes })
 }
 
-fn utf8_strategy() -> impl Strategy<Value = Utf8Case> {
+pub fn utf8_strategy() -> impl Strategy<Value = Utf8Case> {
     let boundary = prop::sample::select(BOUNDARY.to_vec());
     let byte = prop_oneof![3 => boundary, 2 => any::<u8>(), 2 => 0x20u8..0x7f];
     prop_oneof![
@@ -472,7 +472,7 @@ fn utf8_strategy() -> impl Strategy<Value = Utf8Case> {
     ]
 }
 
-fn enum_strategy() -> impl Strategy<Value = EnumCase> {
+pub fn enum_strategy() -> impl Strategy<Value = EnumCase> {
     (0u8..3, any::<bool>(), any::<[u64; 4]>(), 0u8..6).prop_map(|(which, variant, vals, route)| EnumCase { which, variant, vals, route })
 }
 
